@@ -113,3 +113,58 @@ add("C18", "model_checking",
     "complete and carrying (facility:severity).",
     "Destinations restricted to openable file: targets; 'written' = at least once (duplicates not counted, DESIGN.md 9); bounded sections.",
     "DESIGN.md 6 (C18), 5.3")
+
+add("C05", "model_checking", _DAEMON_TECH % "P05_content",
+    "TLC explores (i) straight-line scripts C,P,H,X.. that enumerate the rich reply pools exhaustively (every reply kind from every "
+    "service type; account 8/64/65/90 chars with and without trailing words; NO/AGAIN/MORE texts with spaces and punctuation up to "
+    "200 chars) and (ii) the free environment (every order of replies, passwords, timeout); replayed on the real daemon with "
+    "iauth_class loaded and a two-rule probe table. TLC judges every real step: k text = NO text exactly and only after an awaited "
+    "NO; R+account (cut to 64) iff an awaited login-type OK carried one for this instance, else D; class field per the probe table; "
+    "M +x required for a stamped client that asked +x (permitted for +!-only, forbidden otherwise); C text = MORE/AGAIN text verbatim "
+    "to that client only; no other client-directed line kinds.",
+    _DAEMON_NOTE + " The class clause uses a fixed two-rule table (rule semantics are C11's subject). Texts are printable ASCII.",
+    "DESIGN.md 6 (C05), 9, App. A")
+
+add("C06", "model_checking", _DAEMON_TECH % "P06_queries",
+    "TLC explores (i) straight-line scripts enumerating the rich data pools exhaustively (nick 5/30/31/45, host 12/63/64/80, ident "
+    "4/10/11/15 or empty, user 6/9/10/13 and ~-prefixed 8/10/12, realname with spaces 11/50/51/70, credentials 10/511/512/600, "
+    "passwords without modes / space / separator) in three arrival orders over all protocol types, (ii) the free environment (all "
+    "arrival orders incl. hurry-up, password before/after data, repeated passwords). TLC judges every real step: the services "
+    "queried = those that became due in this step (plus permitted re-queries after a new password), each with exactly the CHECK / "
+    "LOGIN / LOGIN2 lines of its protocol, every field = the text the server sent cut to its limit with the ~ rule, every X line "
+    "carries the client's own fresh tag.",
+    _DAEMON_NOTE + " Field texts are identified by reference and length (exact match or proper prefix of the text sent).",
+    "DESIGN.md 6 (C06), 9, App. A")
+
+add("C07", "model_checking",
+    "2-safety by self-composition in TLA+ (NonInterf.tla: world 1 = all clients interleaved, world 2 = the observed client's own events, "
+    "both instances of IAuth.tla) model-checked by TLC over every interleaving within the bounds; world-1 behaviours (one per explored "
+    "transition) and random merges of three single-client model behaviours are run on the real daemon interleaved and alone (two real "
+    "runs, fresh processes, per-client distinct texts) and compared step by step by TLC (DiffTrace.tla) up to tag renaming; contract "
+    "conjunct P07_scope on all runs",
+    "TLC checks SameConversation / SilentOthers / SameState for the observed client against another client's announce, data, password, "
+    "reply, timeout and disconnect traffic in every interleaving (7 713 states / 1.1e5 transitions quick; 6.5e5 / 1.0e7 thorough, plus "
+    "simulation of a 3-id configuration); a shared-password-buffer model mutant must be caught. 360+100 (quick) / ~2.5e4 (thorough) pairs "
+    "of real runs: the interleaved run projected to one client must print, on each of that client's steps, exactly what the daemon prints "
+    "when the client is alone (tags renamed by order of appearance).",
+    "Exhaustive only for 2 ids and the stated bounds (the other client's traffic restricted to the lines that reach shared structures); "
+    "three-client interleavings are seeded random merges. The equality is between two real runs, so it does not depend on the model.",
+    "DESIGN.md 6 (C07)")
+
+add("C09", "model_checking",
+    "TLA+ specification of the iauthd->ircd wire format (IAuthWire.tla: lexical rules, per-message grammar, addressing rule using "
+    "Addr!Denote / Canon) model-checked by TLC against a generator of the documented message forms and their corruptions (MCWire.tla); "
+    "the real daemon is driven to print every message kind for clients announced from a TLC-generated address domain under three logs "
+    "sections with warning/error-producing events; every stdout line from the banner on, byte for byte, is judged by TLC (WireTrace.tla)",
+    "TLC checks that every generated message form is accepted, that 11 kinds of corruption (double / leading / trailing space, control "
+    "character, missing id or port, non-address text, address starting with ':', port > 65535, log-style text, empty line) are rejected "
+    "and that Addressed accepts exactly the matching (id, address, port) (31 680 states). Real daemon: 2 080 address values (all 256 "
+    "zero/non-zero group patterns, 160 digit-count patterns, 1 536 IPv4 / near-IPv4 shapes, 128 class-boundary values; thorough 12 000 "
+    "digit-count patterns and the 9-value octet pool) x up to 4 textual forms, ports {0, 1, 1023, 6667, 32768, 65535, random}, four "
+    "history variants that make the daemon print X, d, C, M, U, R/D/k, plus `? config`, `? stats`, unknown info requests, garbage with "
+    "id -1, SIGUSR1 reloads of a broken and of a valid file, under logs sections {none, catch-all file, per-facility files}: 5.5e4 steps, "
+    "6.2e4 stdout lines (1.9e4 client-directed) in quick, each judged for form and for id / Denote(address text) = Canon(announced) / port.",
+    "The announced address is Denote(text the driver sent) - computed by TLC, not by the driver. Class values, service names and account "
+    "words without spaces; debug mode excluded by the property; the barrier's own statistics block is judged on every 40th step; "
+    "addresses are representatives of digit-count classes (adequacy argued from the printer's code, see C12).",
+    "DESIGN.md 6 (C09), 5.3")
